@@ -314,6 +314,55 @@ Definition exact_nodata_check (qtype : N) (bm : list N) : err :=
   else if negb (qtype =? T_DS) && deleg_bitmap bm then E_bad_deleg
   else E_ok.
 
+(* ---- the same two verifiers with props/C02/fix.patch applied.  Which variant describes the
+   tree under test is decided from the source text on every run (the fixmark definitions of Gen.C02). *)
+Definition verify_nameerror_nsec_fixed (qn : rname) (set : list cnsec) : err :=
+  match find (rec_covers qn) set with
+  | None => E_missing
+  | Some c =>
+      if strict_prefix_b qn (c_next c) then E_missing            (* NextDomain below qname: empty non-terminal *)
+      else if existsb (fun r => strict_prefix_b (c_owner r) qn && cut_bitmap (c_types r)) set
+      then E_bad_deleg                                           (* delegation / DNAME NSEC above qname *)
+      else
+        let ce := closest_encloser_nsec qn (c_owner c) (c_next c) in
+        match find (rec_covers (ce ++ [star])) set with          (* root encloser: "*." *)
+        | None => E_missing
+        | Some w => if strict_prefix_b (ce ++ [star]) (c_next w) then E_missing else E_ok
+        end
+  end.
+
+Definition verify_nodata_nsec_fixed (qn : rname) (qtype : N) (set : list cnsec) : err :=
+  match find (fun r => rname_eqb (c_owner r) qn) set with
+  | Some r => exact_nodata_check qtype (c_types r)
+  | None =>
+      match find (rec_covers qn) set with
+      | None => E_missing
+      | Some c =>
+          match closest_encloser_nsec qn (c_owner c) (c_next c) with
+          | [] => E_missing
+          | ce =>
+              match find (fun r => rname_eqb (c_owner r) (ce ++ [star])) set with
+              | Some w => exact_nodata_check qtype (c_types w)
+              | None => E_missing
+              end
+          end
+      end
+  end.
+
+Definition has_marker (m : String.string) (l : list (list N)) : bool :=
+  existsb (list_eqb N.eqb (bytes_of_string m)) l.
+Definition fix_nameerror_nsec : bool := has_marker "nsecAncestorCut(" fixmark_nameerror_nsec.
+(* a "q.Qtype != dns.TypeDS && typesSet(..." test inside the verifier: character 8 is '!' *)
+Definition has_neq_ds (l : list (list N)) : bool := existsb (fun s => nth 8 s 0 =? 33) l.
+Definition fix_nodata_nsec : bool := has_neq_ds fixmark_nodata_nsec.
+Definition fix_nodata_nsec3 : bool := has_neq_ds fixmark_nodata_nsec3.
+
+Definition verify_nameerror_nsec_cur (qn : rname) (set : list cnsec) : err :=
+  if fix_nameerror_nsec then verify_nameerror_nsec_fixed qn set else verify_nameerror_nsec qn set.
+Definition verify_nodata_nsec_cur (qn : rname) (qtype : N) (set : list cnsec) : err :=
+  if fix_nodata_nsec then verify_nodata_nsec_fixed qn qtype set else verify_nodata_nsec qn qtype set.
+
+
 (* closestEncloserFromAggressiveNSEC *)
 Definition closest_encloser_aggr (q : rname) (c : cnsec) : option rname :=
   match q with
